@@ -311,6 +311,8 @@ class TBRiROAS():
     tail_probability = (1 - level) / tails
 
     metric_data = metric_df.analysis_data.copy().reset_index()
+    # Dates outside the pre-test, test and cooldown periods are not analysed.
+    metric_data = metric_data[metric_data['period'].isin(periods)]
 
     dates = metric_data.loc[metric_data['period'].isin(periods),
                             'date'].unique()
